@@ -347,6 +347,18 @@ func (i Interval) Expanded(margin float64) Interval {
 	if result.Lo <= -math.Pi {
 		result.Lo = math.Pi
 	}
+	// The allowance above covers one rounding error per endpoint, but the
+	// endpoints are computed at magnitudes of up to 3*Pi, where several more
+	// bits can be lost. If the endpoints passed each other anyway, the arc
+	// between them is the complement of the intended result: detect that by
+	// checking the result against the original interval.
+	if margin >= 0 {
+		if !result.ContainsInterval(i) {
+			return FullInterval()
+		}
+	} else if !i.ContainsInterval(result) {
+		return EmptyInterval()
+	}
 	return result
 }
 
